@@ -106,10 +106,10 @@ pub fn tokenize_spans(text: &str) -> (Vec<Seen>, Vec<(usize, usize)>) {
     (out, spans)
 }
 
-/// The one thing about layout C18 does promise implicitly: a matrix part is shown as the matrix it is.  If the text
-/// separates the entries of a matrix part (of plain numbers, or of scalar dual numbers) into rows at all (a line break, a bracket, a bar or a
-/// semicolon between two entries), then it must do so after every `cols` entries and nowhere else.  A flat list
-/// gives no verdict.  `shapes`: (ordinal of the first entry among the numbers of the text, rows, columns).
+/// The one thing about layout C18 does promise implicitly: a matrix part is shown as the matrix it is.  What
+/// separates the entries of a matrix part (of plain numbers, or of scalar dual numbers) into rows (a line break, a bracket, a bar or a
+/// semicolon between two entries) must come after every `cols` entries and nowhere else.  A flat list (no separation
+/// at all) shows a vector, not the matrix: two parts of different shape with the same entries would read the same.  `shapes`: (ordinal of the first entry among the numbers of the text, rows, columns).
 pub fn shape_mismatch(text: &str, shapes: &[(usize, usize, usize, usize)]) -> Option<String> {
     if shapes.is_empty() {
         return None;
@@ -131,9 +131,62 @@ pub fn shape_mismatch(text: &str, shapes: &[(usize, usize, usize, usize)]) -> Op
             }
         }
         let want: Vec<usize> = (1..rows).map(|r| r * cols).collect();
-        if !breaks.is_empty() && breaks != want {
+        if breaks.is_empty() {
+            return Some(format!(
+                "a {rows} x {cols} matrix part is laid out as one flat list of {} entries: nothing in the text separates its rows, it reads as a vector (the shape of the part is dropped from the text: parts of other shapes with the same entries read the same)",
+                rows * cols
+            ));
+        }
+        if breaks != want {
             return Some(format!(
                 "a {rows} x {cols} matrix part is laid out with row breaks after entries {breaks:?}; a {rows} x {cols} matrix has them after {want:?} (the entries are in the right order, the shape shown is not the part's)"
+            ));
+        }
+    }
+    None
+}
+
+/// "each [part] followed by its documented symbol": when the text encloses the entries of a vector part in brackets
+/// (an opening bracket stands between the preceding item and the part's first entry), the bracket is closed before the
+/// part's symbol - "[2.5, -3]ε" - so that the symbol stands behind the part.  "[2.5, -3ε]" has the same numbers and symbols
+/// in the same order and reads as a list whose last entry alone carries the symbol.
+/// `vparts`: (ordinal of the first number of the part, entries, numbers per entry).
+pub fn bracket_mismatch(text: &str, vparts: &[(usize, usize, usize)]) -> Option<String> {
+    if vparts.is_empty() {
+        return None;
+    }
+    let cs: Vec<char> = text.chars().collect();
+    let (_, spans) = tokenize_spans(text);
+    for &(first, len, k) in vparts {
+        if first == 0 || first + len * k > spans.len() {
+            return None; // the number sequence itself is off: reported by compare()
+        }
+        // the opening gap: from the end of the previous number, past any symbol directly behind it, to the first entry
+        let mut a = spans[first - 1].1;
+        while a < spans[first].0 && is_sym_cont(cs[a]) {
+            a += 1;
+        }
+        let opening: String = cs[a..spans[first].0].iter().collect();
+        let closer = match opening.chars().rev().find(|c| matches!(c, '[' | '(' | ']' | ')')) {
+            Some('[') => ']',
+            Some('(') => ')',
+            _ => continue, // not bracketed
+        };
+        // behind the last number of the part: (for entries that are dual numbers: the entry's own last symbol, written
+        // directly behind the number,) then the closing bracket, then the part's symbol
+        let last = first + len * k - 1;
+        let end = if last + 1 < spans.len() { spans[last + 1].0 } else { cs.len() };
+        let mut p = spans[last].1;
+        if k > 1 {
+            while p < end && is_sym_cont(cs[p]) {
+                p += 1;
+            }
+        }
+        let Some(sym_at) = (p..end).find(|i| is_sym_start(cs[*i])) else { continue };
+        if !cs[p..sym_at].contains(&closer) {
+            let shown: String = cs[spans[first].0.saturating_sub(1)..(sym_at + 2).min(cs.len())].iter().collect();
+            return Some(format!(
+                "a vector part of {len} entries is opened with a bracket but its symbol is written before the bracket is closed ({shown:?}): the symbol stands behind the last entry, not behind the part"
             ));
         }
     }
